@@ -651,18 +651,37 @@ impl UdpSink {
         });
         Some(UdpSink { addr, got, stop })
     }
-    /// datagrams received so far, after the flow has been quiet for a moment
+    /// Everything the reporter has sent so far. On loopback a datagram is queued at the receiving
+    /// socket before `send` returns, so all of them are in the socket buffer already; the harness
+    /// sends a marker of its own behind them and takes what was read before the marker. No
+    /// quiet-period guessing: a descheduled reader only makes this slower.
     fn drain(&self) -> Vec<Vec<u8>> {
-        let mut last = usize::MAX;
+        static MARK: std::sync::atomic::AtomicU64 = std::sync::atomic::AtomicU64::new(1);
+        let id = MARK.fetch_add(1, Ordering::SeqCst);
+        let marker = format!("\u{0}hx-drain-marker-{}", id).into_bytes();
+        let bind = if self.addr.is_ipv6() { "[::1]:0" } else { "127.0.0.1:0" };
+        let sent = UdpSocket::bind(bind).and_then(|s| s.send_to(&marker, self.addr)).is_ok();
+        let t = Instant::now();
         loop {
-            std::thread::sleep(Duration::from_millis(30));
-            let n = self.got.lock().unwrap().len();
-            if n == last {
-                break;
+            {
+                let mut g = self.got.lock().unwrap();
+                if let Some(p) = g.iter().position(|d| *d == marker) {
+                    let mut head: Vec<Vec<u8>> = g.drain(..=p).collect();
+                    head.pop();
+                    return head;
+                }
             }
-            last = n;
+            // the marker itself may be dropped when the buffer is full: send another one now and
+            // then; give up after a generous while and return what is there
+            if !sent || t.elapsed() > Duration::from_secs(10) {
+                std::thread::sleep(Duration::from_millis(100));
+                return std::mem::take(&mut *self.got.lock().unwrap());
+            }
+            if t.elapsed().as_millis() % 500 > 490 {
+                let _ = UdpSocket::bind(bind).and_then(|s| s.send_to(&marker, self.addr));
+            }
+            std::thread::sleep(Duration::from_millis(1));
         }
-        std::mem::take(&mut *self.got.lock().unwrap())
     }
 }
 
@@ -1288,25 +1307,74 @@ fn run_datadog(st: &mut St, r: &mut Rng, n: usize, deadline: Instant) {
 
 // ---- opentelemetry ----
 
-#[derive(Debug, Clone, Default)]
-struct Capture(Arc<Mutex<Vec<Vec<opentelemetry_sdk::trace::SpanData>>>>);
+#[derive(Clone, Default, Debug)]
+struct Capture(Arc<Mutex<Vec<Vec<opentelemetry_sdk::trace::SpanData>>>>, Arc<CaptureCtl>);
+
+#[derive(Default, Debug)]
+struct CaptureCtl {
+    /// how often the next export futures return Pending before they complete
+    pending_polls: std::sync::atomic::AtomicUsize,
+    /// the next export fails (after taking the batch)
+    fail_next: AtomicBool,
+    /// exports whose future was driven to completion
+    completed: std::sync::atomic::AtomicUsize,
+    resources_set: Mutex<Vec<String>>,
+}
+
+/// completes after `left` more polls, waking itself so that any executor makes progress
+struct ExportFut {
+    left: usize,
+    ctl: Arc<CaptureCtl>,
+    fail: bool,
+}
+
+impl std::future::Future for ExportFut {
+    type Output = opentelemetry_sdk::error::OTelSdkResult;
+    fn poll(mut self: std::pin::Pin<&mut Self>, cx: &mut std::task::Context<'_>) -> std::task::Poll<Self::Output> {
+        if self.left > 0 {
+            self.left -= 1;
+            cx.waker().wake_by_ref();
+            return std::task::Poll::Pending;
+        }
+        self.ctl.completed.fetch_add(1, Ordering::SeqCst);
+        if self.fail {
+            std::task::Poll::Ready(Err(opentelemetry_sdk::error::OTelSdkError::InternalFailure("injected".into())))
+        } else {
+            std::task::Poll::Ready(Ok(()))
+        }
+    }
+}
 
 impl opentelemetry_sdk::trace::SpanExporter for Capture {
     fn export(&self, batch: Vec<opentelemetry_sdk::trace::SpanData>) -> impl std::future::Future<Output = opentelemetry_sdk::error::OTelSdkResult> + Send {
         self.0.lock().unwrap().push(batch);
-        async { Ok(()) }
+        ExportFut { left: self.1.pending_polls.load(Ordering::SeqCst), ctl: self.1.clone(), fail: self.1.fail_next.swap(false, Ordering::SeqCst) }
+    }
+    fn set_resource(&mut self, resource: &opentelemetry_sdk::Resource) {
+        self.1.resources_set.lock().unwrap().push(format!("{:?}", resource.get(&opentelemetry::Key::new("service.name"))));
     }
 }
 
 fn run_otel(st: &mut St, r: &mut Rng, n: usize, deadline: Instant) {
     use opentelemetry::trace::SpanKind;
     let cap = Capture::default();
+    // the three constructor arguments differ from run to run; all of them must come out again
+    let kinds = [SpanKind::Server, SpanKind::Client, SpanKind::Internal, SpanKind::Producer, SpanKind::Consumer];
+    let kind = kinds[r.below(kinds.len())].clone();
+    let scope_name = format!("scope-{}", r.below(1000));
+    let service = format!("svc-{}", r.below(1000));
     let mut rep = fastrace_opentelemetry::OpenTelemetryReporter::new(
         cap.clone(),
-        SpanKind::Server,
-        Cow::Owned(opentelemetry_sdk::Resource::builder().build()),
-        opentelemetry::InstrumentationScope::builder("hx").build(),
+        kind.clone(),
+        Cow::Owned(opentelemetry_sdk::Resource::builder().with_service_name(service.clone()).build()),
+        opentelemetry::InstrumentationScope::builder(scope_name.clone()).with_version("1.2.3").build(),
     );
+    {
+        let rs = cap.1.resources_set.lock().unwrap();
+        if rs.len() != 1 || !rs[0].contains(&service) {
+            st.viol("resource-not-passed", format!("the exporter's set_resource was called {} time(s) with {:?}, expected once with service.name {:?}", rs.len(), *rs, service));
+        }
+    }
     rep.report(vec![]);
     if !cap.0.lock().unwrap().is_empty() {
         st.viol("export-for-empty-batch", "export() was called for an empty batch".into());
@@ -1331,10 +1399,26 @@ fn run_otel(st: &mut St, r: &mut Rng, n: usize, deadline: Instant) {
         if swell(r, &mut batch, 1500, 600) {
             st.stat("records_with_over_128_events_or_properties", 1);
         }
+        // some exports are not ready at once, some fail: the reporter must drive each export to
+        // completion, and a failed export must not disturb the next batch
+        let pend = if r.chance(1, 4) { 1 + r.below(3) } else { 0 };
+        cap.1.pending_polls.store(pend, Ordering::SeqCst);
+        let fail = r.chance(1, 12);
+        cap.1.fail_next.store(fail, Ordering::SeqCst);
+        let done_before = cap.1.completed.load(Ordering::SeqCst);
         rep.report(batch.clone());
         st.evals += 1;
         st.distinct += 1;
         st.records += batch.len();
+        if pend > 0 {
+            st.stat("exports_pending_before_completion", 1);
+        }
+        if fail {
+            st.stat("exports_failing", 1);
+        }
+        if cap.1.completed.load(Ordering::SeqCst) != done_before + 1 {
+            st.viol("export-not-completed", format!("otel batch #{}: report() returned but the export future was driven to completion {} time(s) (it needed {} extra poll(s))", k, cap.1.completed.load(Ordering::SeqCst) - done_before, pend));
+        }
         let calls = std::mem::take(&mut *cap.0.lock().unwrap());
         if calls.len() != 1 || calls[0].len() != batch.len() {
             st.viol("span-count", format!("otel batch #{}: {} export calls with {:?} spans for {} records", k, calls.len(), calls.iter().map(|c| c.len()).collect::<Vec<_>>(), batch.len()));
@@ -1365,8 +1449,14 @@ fn run_otel(st: &mut St, r: &mut Rng, n: usize, deadline: Instant) {
                 && ns(d.end_time) == rec.begin_time_unix_ns + rec.duration_ns
                 && attrs == want_attrs
                 && evs == want_evs
-                && d.span_kind == SpanKind::Server
-                && d.links.links.is_empty();
+                && d.span_kind == kind
+                && d.links.links.is_empty()
+                && d.dropped_attributes_count == 0
+                && d.events.dropped_count == 0
+                && d.status == opentelemetry::trace::Status::Unset
+                && d.instrumentation_scope.name() == scope_name
+                && d.instrumentation_scope.version() == Some("1.2.3")
+                && d.events.iter().all(|e| e.dropped_attributes_count == 0);
             if !ok {
                 st.viol(
                     "span-content",
